@@ -189,6 +189,8 @@ Fixpoint dec_step (j : J) : option step :=
       else if tag_is t "combine_values" then option_map SCombineValues (dec_cid a)
       else if tag_is t "combine_values_lifted" then option_map SCombineValuesLifted (dec_cid a)
       else if tag_is t "top_k_per_key" then option_map STopKPerKey (dec_nat a)
+      else if tag_is t "debug" then option_map SDebug (dec_nat a)
+      else if tag_is t "custom_map" then option_map SCustomMap (dec_efun a)
       else None
   | JL [JS t; a; b] =>
       if tag_is t "map_with_side" then obind2 (dec_vals a) (dec_sfun b) SMapWithSide
